@@ -43,6 +43,7 @@ class Op:
     out = None          # type of the produced slot, or None for observers
     weight = 1.0
     consumes = ()       # arg names whose slot is retired (overwritten) by op
+    mutates = ()        # arg names the CALLER overwrites in place (not the library)
 
     def gen(self, rng, S):
         raise NotImplementedError
@@ -105,7 +106,7 @@ def gen_subset(rng):
     return {"frac": rng.choice([0.1, 0.3, 0.5, 0.5, 0.9, 1.0]),
             "seed": rng.randrange(1 << 30),
             "dtype": rng.choice(["int32", "int32", "int64"]),
-            "shuffle": rng.random() < 0.2}
+            "shuffle": rng.random() < 0.3}
 
 
 def points_in_mesh(m, spec):
@@ -351,7 +352,7 @@ class MeshTag(Op):
             return m.with_subdomains({a["name"]: R.predicate(a["spec"])})
         if w == "b-idx":
             return m.with_boundaries(
-                {a["name"]: np.sort(resolve_subset(m.nfacets, a["sub"]))})
+                {a["name"]: resolve_subset(m.nfacets, a["sub"])})
         if w == "b-ori":
             # an oriented facet set obtained from the library's own selectors
             how = a.get("ori_how", "around")
@@ -372,7 +373,7 @@ class MeshTag(Op):
                                       np.asarray(ob.ori)[keep])
             return m.with_boundaries({a["name"]: ob})
         return m.with_subdomains(
-            {a["name"]: np.sort(resolve_subset(m.nelements, a["sub"]))})
+            {a["name"]: resolve_subset(m.nelements, a["sub"])})
 
 
 @register
@@ -479,6 +480,60 @@ class MeshTables(Op):
 
 
 @register
+class MkPoints(Op):
+    """A point array the caller owns and keeps (a sensor position, a moving
+    source): handed to point evaluations as the same array object."""
+    name = "mk_points"
+    out = "pts"
+    weight = 0.8
+
+    def gen(self, rng, S):
+        m = S.pick(rng, "mesh")
+        if m is None:
+            return None
+        return {"mesh": ref(m), "pts": gen_points(rng)}
+
+    def meta(self, a, S):
+        src = a["mesh"]["ref"]
+        return {"mesh": src, "topo": S.slots[src].get("topo"),
+                "cell": S.slots[src]["cell"]}
+
+    def apply(self, W, a):
+        return points_in_mesh(W[a["mesh"]["ref"]], a["pts"])
+
+
+@register
+class PointsOverwrite(Op):
+    """The caller writes new coordinates (same count) into its own buffer:
+    the same array object, other values.  The buffer's old slot is retired,
+    the new slot is the same object."""
+    name = "points_overwrite"
+    out = "pts"
+    weight = 0.8
+    consumes = ("buf",)
+    mutates = ("buf",)
+
+    def gen(self, rng, S):
+        p = S.pick(rng, "pts")
+        if p is None:
+            return None
+        return {"buf": ref(p), "mesh": ref(S.slots[p]["mesh"]),
+                "pts": gen_points(rng)}
+
+    def meta(self, a, S):
+        pm = dict(S.slots[a["buf"]["ref"]])
+        pm.pop("type")
+        return pm
+
+    def apply(self, W, a):
+        P = W[a["buf"]["ref"]]
+        new = points_in_mesh(W[a["mesh"]["ref"]],
+                             dict(a["pts"], n=P.shape[1]))
+        P[...] = new
+        return P
+
+
+@register
 class MeshFinder(Op):
     name = "mesh_finder"
     weight = 1.5
@@ -487,12 +542,17 @@ class MeshFinder(Op):
         m = S.pick(rng, "mesh")
         if m is None:
             return None
-        return {"mesh": ref(m), "pts": gen_points(rng, rng.random() < 0.15),
-                "twice": rng.random() < 0.3}
+        a = {"mesh": ref(m), "pts": gen_points(rng, rng.random() < 0.15),
+             "twice": rng.random() < 0.3}
+        p = S.pick(rng, "pts", lambda x: x["mesh"] == m)
+        if p is not None and rng.random() < 0.5:
+            a["pts_obj"] = ref(p)
+        return a
 
     def apply(self, W, a):
         m = W[a["mesh"]["ref"]]
-        P = points_in_mesh(m, a["pts"])
+        P = W[a["pts_obj"]["ref"]] if "pts_obj" in a \
+            else points_in_mesh(m, a["pts"])
         f = m.element_finder()
         out = [f(*P)]
         if a["twice"]:
@@ -794,7 +854,7 @@ class MkBasis(Op):
         if k == "facet-subset":
             bf = m.boundary_facets()
             return FacetBasis(m, e, mapping=g, intorder=io,
-                              facets=bf[np.sort(resolve_subset(len(bf), a["sub"]))],
+                              facets=bf[resolve_subset(len(bf), a["sub"])],
                               **kw)
         return InteriorFacetBasis(m, e, mapping=g, intorder=io,
                                   side=int(k[-1]), **kw)
@@ -1004,10 +1064,17 @@ class BasisPoint(Op):
         b = S.slots[v]["basis"]
         if S.slots[b]["kind"] not in ("cell",):
             return None
-        return {"vec": ref(v), "basis": ref(b),
-                "how": rng.choice(["probes", "interpolator", "point_source"]),
-                "pts": gen_points(rng, rng.random() < 0.1),
-                "again": rng.random() < 0.4}
+        a = {"vec": ref(v), "basis": ref(b),
+             "how": rng.choice(["probes", "interpolator", "point_source"]),
+             "pts": gen_points(rng, rng.random() < 0.1),
+             "again": rng.random() < 0.4}
+        bm = S.slots[b]
+        p = S.pick(rng, "pts", lambda x: x["mesh"] == bm["mesh"])
+        if p is not None and rng.random() < 0.6:
+            # the caller's own (kept, possibly overwritten) point array
+            a["pts_obj"] = ref(p)
+            a["again"] = False
+        return a
 
     def apply(self, W, a):
         b = W[a["basis"]["ref"]]
@@ -1015,7 +1082,8 @@ class BasisPoint(Op):
         out = []
         for rep in range(2 if a["again"] else 1):
             spec = dict(a["pts"], seed=a["pts"]["seed"] + rep)
-            P = points_in_mesh(b.mesh, spec)
+            P = W[a["pts_obj"]["ref"]] if "pts_obj" in a \
+                else points_in_mesh(b.mesh, spec)
             if a["how"] == "probes":
                 out.append(b.probes(P))
             elif a["how"] == "interpolator":
@@ -1064,7 +1132,7 @@ class BasisGetDofs(Op):
         if f == "nodes-pred":
             return b.get_dofs(nodes=pr)
         if f == "idx":
-            return b.get_dofs(np.sort(resolve_subset(b.mesh.nfacets, a["sub"])))
+            return b.get_dofs(resolve_subset(b.mesh.nfacets, a["sub"]))
         if f == "bname":
             return b.get_dofs(a["b"][0])
         if f == "bset":
